@@ -156,6 +156,8 @@ type Variable struct {
 	Used   bool
 	Origin VariableOriginKind
 	IsPub  bool
+	// The name stands for a function which another module of the program defines (not for a value of function type).
+	IsProgramFunction bool
 }
 
 func NewVar(typ ast.Type, span errors.Span, origin VariableOriginKind, isPub bool) Variable {
